@@ -15,4 +15,5 @@ EXES = [
     {"name": "timers", "sources": ["harness/timers.cpp"]},
     {"name": "anyw", "sources": ["harness/anyw.cpp"]},
     {"name": "coro", "sources": ["harness/coro.cpp"]},
+    {"name": "traits", "sources": ["harness/traits.cpp"]},
 ]
